@@ -114,6 +114,21 @@ def gen():
         raise SystemExit("translator: expected the italics branch of PAC and of the mid-row codes, found %d" % len(its))
     midrow_keeps = its[1] == ""
 
+    # one current channel per field?  (`int curr_chan[2]`, repair of finding F44; a plain `int curr_chan` = shared)
+    if re.search(r"int\s+curr_chan\s*\[\s*2\s*\]\s*;", cch):
+        sites = (re.search(r"cc->curr_chan\s*\[\s*\(\s*new_chan\s*>>\s*1\s*\)\s*&\s*1\s*\]\s*=\s*new_chan", cap),
+                 re.search(r"chan\s*=\s*\(\s*cc->curr_chan\s*\[\s*field2\s*\]\s*&\s*4\s*\)", cmd),
+                 re.search(r"\(\s*cc->curr_chan\s*\[\s*field2\s*\]\s*&\s*5\s*\)\s*\+\s*field2\s*\*\s*2", cap))
+        if not all(sites) or len(re.findall(r"curr_chan", cap)) != 3:
+            raise SystemExit("translator: curr_chan[2] declared but not used as curr_chan[field2] / curr_chan[(new_chan >> 1) & 1]")
+        per_field = True
+    elif re.search(r"int\s+curr_chan\s*;", cch):
+        if len(re.findall(r"cc->curr_chan\s*(&|=)", cap)) != 3 or len(re.findall(r"curr_chan", cap)) != 3:
+            raise SystemExit("translator: unexpected uses of the shared curr_chan")
+        per_field = False
+    else:
+        raise SystemExit("translator: struct caption.curr_chan not found")
+
     def lst(v):
         return "[" + ", ".join(str(x) for x in v) + "]"
     out = ["-- GENERATED by translate/gen_cc.py from src/caption.c, cc.h, format.h, lang.c - do not edit",
@@ -146,6 +161,9 @@ def gen():
            "def crPopOnNoUpdate : Bool := %s" % ("true" if cr_guard else "false"),
            "/-- mid-row italics leaves `attr.foreground` alone?  (`false` = finding F46) -/",
            "def midrowItalicsKeepsColour : Bool := %s" % ("true" if midrow_keeps else "false"),
+           "/-- `int curr_chan[2]`: one current channel per field, read as `curr_chan[field2]`, written as",
+           "    `curr_chan[(new_chan >> 1) & 1]`?  (`false` = one `curr_chan` shared by both fields, finding F44) -/",
+           "def currChanPerField : Bool := %s" % ("true" if per_field else "false"),
            "", "end Zvbi.Gen.Cc", ""]
     return write_if_changed(os.path.join(OUT, "CcConsts.lean"), "\n".join(out))
 
